@@ -230,19 +230,19 @@ class Element:
 
                 try:
                     dict[element_name] = {t: element.model.memoize(
-                        element.name, t) for t in timerange(starttime, stoptime+dt, dt)}
+                        element.name, t) for t in timerange(starttime, stoptime, dt, exclusive=False)}
                 except:
                     dict[element_name] = {t: element.model.memoize(element.name, t) for t in timerange(
-                        element.model.starttime, element.model.stoptime+dt, dt)}
+                        element.model.starttime, element.model.stoptime, dt, exclusive=False)}
 
             df = pd.DataFrame(dict)
         else:
             try:
                 df = pd.DataFrame({self.name: {t: self.model.memoize(
-                    self.name, t) for t in timerange(starttime, stoptime+dt, dt)}})
+                    self.name, t) for t in timerange(starttime, stoptime, dt, exclusive=False)}})
             except:
                 df = pd.DataFrame({self.name: {t: self.model.memoize(self.name, t) for t in timerange(
-                    self.model.starttime, self.model.stoptime+dt, dt)}})
+                    self.model.starttime, self.model.stoptime, dt, exclusive=False)}})
         # ensure column is of float type and not e.g. an integer
 
         if return_df:
